@@ -84,6 +84,13 @@ fn collect_imports(files: &[SourceFileAst]) -> HashSet<String> {
         .collect()
 }
 
+/// The entry file may be spelled differently from the directory listing: `main.gom` is listed
+/// as `./main.gom` when the package directory is `.`.
+fn is_same_file(entry: &Path, listed: &Path) -> bool {
+    entry == listed
+        || matches!((fs::canonicalize(entry), fs::canonicalize(listed)), (Ok(a), Ok(b)) if a == b)
+}
+
 fn load_package(
     package_dir: &Path,
     entry_path: Option<&Path>,
@@ -104,7 +111,7 @@ fn load_package(
     }
 
     for path in read_gom_sources(package_dir)? {
-        if entry_path.is_some_and(|entry| entry == path) {
+        if entry_path.is_some_and(|entry| is_same_file(entry, &path)) {
             continue;
         }
         let src = fs::read_to_string(&path)
